@@ -153,8 +153,16 @@ def rule_shape(ctx: Ctx) -> RuleResult:
         raise AnalysisError("SHAPE-1: Cli.run does not call generate_code")
     for call, par in outs:
         rr.instances += 1
+        def _is_header(e: ast.AST) -> bool:
+            # the property itself, or a local bound once to it
+            if norm(e) == "self.version_string":
+                return True
+            if isinstance(e, ast.Name):
+                ds = [d for d in walk_no_nested(run.node) if isinstance(d, ast.Assign) and any(norm(t_) == e.id for t_ in d.targets)]
+                return len(ds) == 1 and norm(ds[0].value) == "self.version_string"
+            return False
         ok = isinstance(par, ast.BinOp) and isinstance(par.op, ast.Add) and par.right is call and \
-            norm(par.left) == "self.version_string" and isinstance(run.module.parents.get(par), (ast.Assign, ast.Return))
+            _is_header(par.left) and isinstance(run.module.parents.get(par), (ast.Assign, ast.Return))
         rr.ob(run.relpath, run.qualname, norm(par)[:70] if par is not None else norm(call)[:70],
               "the emitted text is the header string followed directly by the generated module", DISCHARGED if ok else VIOLATED,
               "`self.version_string + generate_code(...)`" if ok else
